@@ -4,6 +4,7 @@ import (
 	"bytes"
 	"fmt"
 	"os"
+	"runtime"
 	"strconv"
 	"strings"
 
@@ -169,6 +170,11 @@ func classifyMidi(c *mon.Ctx, b []byte) string {
 		if m.IsPlayable() && cat == "unknown" {
 			c.Violation("playable-unknown:midi", fmt.Sprintf("unknown message % X is reported playable", b), mon.Hex(b), false, true)
 		}
+		// out-parameters are optional ("only arguments that are not nil are parsed and filled"): also for the sysex data
+		var sxData []byte
+		if m.GetSysEx(nil) != m.GetSysEx(&sxData) {
+			c.Violation("getsysex-nil:midi", fmt.Sprintf("GetSysEx(nil) of % X disagrees with GetSysEx(&data)", head(b, 12)), mon.Hex(head(b, 40)), nil, nil)
+		}
 		s := m.String()
 		if s == "" {
 			c.Violation("string-empty:midi", fmt.Sprintf("String() of % X is empty", b), mon.Hex(b), "non-empty", "")
@@ -257,6 +263,7 @@ func classifySMF(c *mon.Ctx, b []byte) string {
 		if m.IsPlayable() && (cat == "unknown" || cat == "meta") {
 			c.Violation("playable:smf", fmt.Sprintf("%s message % X is reported playable", cat, b), mon.Hex(b), false, true)
 		}
+		_ = m.GetSysEx(nil)
 		s := m.String()
 		if s == "" {
 			c.Violation("string-empty:smf", fmt.Sprintf("String() of % X is empty", b), mon.Hex(b), "non-empty", "")
@@ -560,27 +567,29 @@ func runC08(c *mon.Ctx) {
 		c.DistinctBytes([]byte(fmt.Sprint("every-length", i)))
 	})
 
-	// text-like meta events whose declared length is the top of the 32-bit range (5-byte VLQs, values that
-	// wrap when an offset is added). The library allocates the declared length (4 GB of untouched memory
-	// per call, 1..16 s each here), so these run in the thorough tier only, in one worker, and only when
-	// the machine has the memory to spare.
-	if c.Thorough() {
-		c.Each("wrapping-text-lengths", 1, func(_ int64, r *mon.Rand) {
-			if avail := memAvailableGB(); avail < 24 {
-				c.Count("wrapping_length_skipped_low_memory", 1)
-				return
-			}
-			for _, typ := range []byte{0x01, 0x03, 0x05, 0x09} {
-				for _, ln := range [][]byte{{0x8F, 0xFF, 0xFF, 0xFF, 0x7F}, {0x8F, 0xFF, 0xFF, 0xFF, 0x7B}, {0xFF, 0xFF, 0xFF, 0xFF, 0x7D}} {
-					m := append(append([]byte{0xFF, typ}, ln...), 'a', 'b')
-					c.Count("cat:smf:"+classifySMF(c, m), 1)
-					c.Count("wrapping_length_messages", 1)
-					c.Count("strings_smf", 1)
-					c.DistinctBytes(m)
+	// text-like meta events whose declared length is far beyond the data that is there, up to the top of the 32-bit
+	// range (5-byte VLQs, values that wrap when an offset is added): asking for the string form or the text of a
+	// message of a dozen bytes must not allocate the declared length (4 GB for FF 03 8F FF FF FF 7F: a panic
+	// "makeslice: len out of range" where int has 32 bits, a fatal out-of-memory error under a memory limit)
+	c.Each("wrapping-text-lengths", 1, func(_ int64, r *mon.Rand) {
+		var ms runtime.MemStats
+		for _, typ := range []byte{0x01, 0x02, 0x03, 0x04, 0x05, 0x06, 0x07, 0x08, 0x09} {
+			for _, ln := range [][]byte{{0xC0, 0x80, 0x00}, {0x88, 0x80, 0x80, 0x00}, {0xFF, 0xFF, 0xFF, 0x7F}, {0x81, 0x80, 0x80, 0x80, 0x00}, {0x88, 0x80, 0x80, 0x80, 0x00}, {0x8F, 0xFF, 0xFF, 0xFF, 0x7F}, {0x8F, 0xFF, 0xFF, 0xFF, 0x7B}, {0xFF, 0xFF, 0xFF, 0xFF, 0x7D}} {
+				m := append(append([]byte{0xFF, typ}, ln...), 'a', 'b')
+				runtime.ReadMemStats(&ms)
+				before := ms.TotalAlloc
+				c.Count("cat:smf:"+classifySMF(c, m), 1)
+				runtime.ReadMemStats(&ms)
+				c.Count("wrapping_length_messages", 1)
+				c.Count("strings_smf", 1)
+				c.DistinctBytes(m)
+				if alloc := ms.TotalAlloc - before; alloc > 16<<20 {
+					c.Violation("declared-length-allocated:smf", fmt.Sprintf("classifying the %d-byte smf.Message % X (type, categories, accessors, string form) allocated %d bytes: the declared text length is allocated although the data is not there; where int has 32 bits that is a panic (makeslice: len out of range), under a memory limit a fatal error", len(m), m, alloc), mon.Hex(m), "at most 16 MiB", alloc)
+					return
 				}
 			}
-		})
-	}
+		}
+	})
 }
 
 func memAvailableGB() int {
